@@ -100,7 +100,7 @@ def conformance(pid, tier, seed):
             c.validate(wb, mod, cfg, "belt-raw", what="belt_block_raw / wblock conformance")
     rule = ("every enc/dec/blocks event (incl. every lane of multi-block calls, Enc/Dec halves, converted instances) of the listed "
             "families must equal the value the bit-precise TLA+ specification computes; keys/blocks: corner classes + seeded random; "
-            "key lengths: " + ("all accepted lengths" if thorough else "boundary subset") +
+            "key lengths: all accepted lengths" +
             "; distinct_nontrivial = distinct (type,key,dir,block) outside {zero key, zero block}")
     return c.finish(rule, ASSUME_COMMON + ["pinned tables (S-boxes, P/S arrays) are transcribed into the specs and validated by the published vectors in spec/kat"])
 
